@@ -206,7 +206,7 @@ def k2b(ctx, kr):
             role = 'C12/K2b/panic/malformed-notification-params' if jsonbad else 'C12/K2b/panic/%s/changes=%d' % (mname, st['nch'])
             _add(kr, role, 'the server panics on a %s notification%s: %s' % (mname, ' whose params do not deserialise' if jsonbad else ' with %d content changes' % st['nch'], pr.panic.msg[:60]), wit, ('lsp_notification', (mname, bool(jsonbad), st['nch']))); return
         resp = [x for x in _msgs_in(M, env, None) if isinstance(x, EnumV) and x.name == 'Message' and x.disc == 1]
-        if resp: _add(kr, 'C12/K2b/notification-answered/' + mname, 'a notification (%s) is answered with a response' % mname, wit, None)
+        if resp: _add(kr, 'C12/K2b/notification-answered/' + mname, 'a notification (%s) is answered with a response' % mname, wit, ('lsp_notification', (mname, bool(jsonbad), st['nch'])))
         if len(kr.samples) < 3: kr.samples.append({'notification': wit, 'messages_sent': len(env.sent)})
     M.explore(entry, on_path)
     kr.queries += M.stats['smt']
@@ -228,11 +228,14 @@ def _replay_notification(method, malformed, nch):
             elif method == 'textDocument/didChange': s.did_change(uri, ['PROGRAM p\nEND_PROGRAM\n'] * nch, 2)
             else: s.notify(method, {})
             rid2 = s.request('textDocument/semanticTokens/full', {'textDocument': {'uri': uri}})
-            r2 = s.wait_for(lambda x: x.get('id') == rid2, timeout=3)
+            seen = []
+            r2 = s.wait_for(lambda x: (seen.append(x) or True) and x.get('id') == rid2, timeout=3)
             alive = s.p.poll() is None
         finally:
             rc = s.close()
-        return (r2 is None) or not alive, {'method': method, 'malformed': malformed, 'content_changes': nch, 'server_alive_after': alive, 'later_request_answered': r2 is not None}
+        # a notification is never answered: any message that is a response (has result/error) other than the answer to the probe request is one
+        stray = [x for x in seen if ('result' in x or 'error' in x) and x.get('id') != rid2]
+        return (r2 is None) or not alive or bool(stray), {'method': method, 'malformed': malformed, 'content_changes': nch, 'server_alive_after': alive, 'later_request_answered': r2 is not None, 'stray_responses': stray[:2]}
     return rp
 
 
